@@ -57,7 +57,15 @@ SrvTransport(MemTransport)
 
 Script(record=None)                 scripted handlers keyed by request id (header X-Id)
     .plan[id] = {"beh": <name>, ...}       behaviours: ret0 gate read readsome stream httpexc exc
-                                           timeout partial never sleep streamself
+                                           timeout never sleep streamself none;
+                                           failure after output started: partial (RuntimeError),
+                                           partialto (TimeoutError), partialhx (HTTPException) after
+                                           prepare()+write(); prephx / prepto after prepare() only;
+                                           bodyfail / bodyfailx: the response body source (async
+                                           iterable) raises ConnectionResetError / RuntimeError
+                                           after its first chunk
+    .exit_info[id]                  {how, wrote, httpexc}: how the handler ended and whether it had
+                                    produced output by then
     .handler                        the coroutine function to give to ServerKit / add_route
     .go(id)                         open the gate a `gate`/`stream` handler waits on
     .running                        ids of handlers entered and not exited
@@ -75,7 +83,8 @@ split_responses(wire, *, head_ids=(), connect_ids=()) -> [RespRec dict]       in
     status line, Content-Length / chunked / close-delimited, 1xx/204/304 (and HEAD ids) bodiless,
     2xx to a CONNECT id = tunnel (rest of the wire is tunnel data); fields:
     start hend end complete status minor sl (status line bytes) cl te close id fr chunks bodylen
-    garbage; fr in none|cl|chunked|close|tunnel.  A close-delimited response is reported
+    garbage; fr in none|cl|chunked|close|tunnel.  A status line found where a chunk-size line is
+    expected marks the record garbage and the splitter resynchronises there.  A close-delimited response is reported
     complete=False: the caller decides (complete iff the server closed).  The TLA+ monitors
     re-check the arithmetic of these records.
 quiet_logger()                       logger that swallows the server's tracebacks (default for ServerKit)
@@ -87,6 +96,7 @@ from __future__ import annotations
 import asyncio
 import gc
 import re
+import sys
 import threading
 from typing import Any, Callable, Dict, List, Optional, Tuple
 
@@ -413,6 +423,7 @@ class Script:
         self.conn: Optional[Conn] = None
         self.unknown = 0
         self.entry_budget = 1000         # handler entries per execution (runaway guard)
+        self.exit_info: Dict[int, dict] = {}   # id -> {how, wrote (output before the handler ended), httpexc}
 
     def _rec(self, s: str) -> None:
         if self.record is not None:
@@ -467,6 +478,7 @@ class Script:
         self._rec(f"henter:{rid}")
         how = "ok"
         hdr = {"X-Id": str(rid)}
+        w0 = len(self.conn.tr.written) if self.conn is not None else 0
         try:
             if beh == "ret0":
                 return web.Response(text="ok", headers=hdr)
@@ -482,17 +494,35 @@ class Script:
             if beh == "readsome":
                 data = await request.content.readany()
                 return web.Response(text=str(len(data)), headers=hdr)
-            if beh in ("stream", "streamself", "partial"):
+            if beh in ("stream", "streamself", "partial", "partialto", "partialhx", "prephx", "prepto"):
+                # the failure dimension "after output has started": which exception x how much output
                 resp = web.StreamResponse(headers=hdr)
-                await resp.prepare(request)
+                await resp.prepare(request)             # StreamResponse sends its header block here
+                if beh == "prephx":
+                    raise web.HTTPForbidden(text="no", headers=hdr)
+                if beh == "prepto":
+                    raise asyncio.TimeoutError()
                 await resp.write(b"chunk-one")
                 if beh == "partial":
                     raise RuntimeError("scripted failure after partial write")
+                if beh == "partialto":
+                    raise asyncio.TimeoutError()
+                if beh == "partialhx":
+                    raise web.HTTPForbidden(text="no", headers=hdr)
                 await self._gate(rid)
                 await resp.write(b"chunk-two")
                 if beh == "streamself":
                     await resp.write_eof()
                 return resp
+            if beh in ("bodyfail", "bodyfailx"):
+                # the response body source fails midway (e.g. a proxied upstream body that is reset)
+                exc_t = ConnectionResetError if beh == "bodyfail" else RuntimeError
+
+                async def body() -> Any:
+                    yield b"chunk-one"
+                    raise exc_t("scripted failure of the response body source")
+
+                return web.Response(body=body(), headers=hdr)
             if beh == "httpexc":
                 raise web.HTTPForbidden(text="no", headers=hdr)
             if beh == "exc":
@@ -510,8 +540,11 @@ class Script:
         finally:
             if rid in self.running:
                 self.running.remove(rid)
+            wrote = self.conn is not None and len(self.conn.tr.written) > w0
             self.exited.append((rid, how))
-            self._rec(f"hexit:{rid}:{how}")
+            self.exit_info[rid] = {"how": how, "wrote": bool(wrote),
+                                   "httpexc": isinstance(sys.exc_info()[1], web.HTTPException)}
+            self._rec(f"hexit:{rid}:{how}" + (":w" if wrote else ""))
 
     @property
     def middleware(self) -> Any:
@@ -556,6 +589,14 @@ BAD_HEADS: List[bytes] = [
     b"GET /bad HTTP/1.1\r\nHost: t\r\nNoColonHere\r\n\r\n",
     b"GET /bad HTTP/1.1\r\n\r\n",                                  # HTTP/1.1 without Host
     b"GET /bad HTTP/1.1\r\nHost: t\r\nX: a\x00b\r\n\r\n",           # NUL in field value
+    # the same classes with bytes that are not ASCII / not valid UTF-8 inside the offending lexeme
+    # (the 400 has to be built from whatever the parser puts into its error message)
+    b"GET \xff HTTP/1.1\r\nHost: t\r\n\r\n",                          # neither origin- nor absolute-form
+    b"GET b\xc3\x28d\x80 HTTP/1.1\r\nHost: t\r\n\r\n",
+    b"G\xffT /bad HTTP/1.1\r\nHost: t\r\n\r\n",
+    b"GET /bad HTTP/1.\xff\r\nHost: t\r\n\r\n",
+    b"GET /bad HTTP/1.1\r\nHost: t\r\nB\xffd: v\r\n\r\n",
+    b"GET /bad HTTP/1.1\r\nHost: t\r\nContent-Length: \xb2\r\n\r\n",
 ]
 
 
@@ -638,6 +679,7 @@ def split_responses(wire: bytes, *, head_ids: Tuple[int, ...] = (), connect_ids:
                 r["id"] = int(v)
         st = r["status"]
         body0 = r["hend"]
+        resync = -1
         if r["id"] in connect_ids and r["id"] and 200 <= st < 300:
             # RFC 9110 9.3.6: 2xx to CONNECT has no body; everything after the header block is tunnel data
             r["fr"] = "tunnel"
@@ -661,6 +703,8 @@ def split_responses(wire: bytes, *, head_ids: Tuple[int, ...] = (), connect_ids:
                     sz = int(szs, 16)
                 except ValueError:
                     r["garbage"] = True
+                    if wire[p:p + 7] == b"HTTP/1.":
+                        resync = p          # another response starts inside this chunked body
                     break
                 if sz == 0:
                     te = wire.find(b"\r\n\r\n", e)       # trailers end with an empty line
@@ -679,6 +723,12 @@ def split_responses(wire: bytes, *, head_ids: Tuple[int, ...] = (), connect_ids:
             r["complete"] = ok
             if not ok:
                 r["end"] = n
+            if resync >= 0:
+                # keep splitting behind the intruding status line so that later responses stay visible;
+                # the truncated record keeps garbage=True (never a well-formed wire)
+                r["end"] = resync
+                pos = resync
+                continue
         elif r["cl"] >= 0:
             r["fr"] = "cl"
             if body0 + r["cl"] <= n:
